@@ -213,8 +213,35 @@ inductive KdLookup where
 
 def findSection (secs : List Section) (n : String) : Option Section := secs.find? (·.name == n)
 
-/-- `findV5KernelDescriptor` -/
+/-- `findV5KernelDescriptor` (repaired): the descriptor symbol is used only when it lies inside
+`.rodata`, compared without wrap-around (`sym.Value >= Addr`, `kdOffset <= len`, `len-kdOffset >= 64`) -/
 def findV5 (secs : List Section) (k : String) (syms : List Symbol) : KdLookup :=
+  match findSection secs ".rodata" with
+  | none => .none
+  | some ro =>
+    match ro.data with
+    | none => .none
+    | some rod =>
+      match syms.find? (fun s => s.name == k ++ ".kd" && s.size == 64) with
+      | none => .none
+      | some s =>
+        match secs[s.shndx]? with
+        | none => .none
+        | some sec =>
+          if sec.name == ".rodata" then
+            if ro.addr ≤ s.value then
+              let off := s.value - ro.addr
+              if off ≤ rod.length ∧ rod.length - off ≥ 64 then
+                match parseV5KernelDescriptor? ((rod.drop off).take 64) with
+                | some m => .found m
+                | none => .fault
+              else .none
+            else .none
+          else .none
+
+/-- `findV5KernelDescriptor` before the repair: `kdOffset := sym.Value - rodataSection.Addr` and
+`kdOffset+64 <= len` in wrapping uint64 arithmetic (kept for `findV5_before_fix_refuted`) -/
+def findV5Old (secs : List Section) (k : String) (syms : List Symbol) : KdLookup :=
   match findSection secs ".rodata" with
   | none => .none
   | some ro =>
